@@ -11,7 +11,7 @@ import (
 	"pgregory.net/rapid"
 )
 
-var nameAlphabet = []string{"a", "b", "c", "lib", "d.txt", "e.json", "f.lock", "x y", "-z", "A", ".hidden", "node_modules", "g.txt", "h"}
+var nameAlphabet = []string{"a", "b", "c", "lib", "d.txt", "e.json", "f.lock", "x y", "-z", "A", ".hidden", "node_modules", "g.txt", "h", "lib64", "ab", "a.b"}
 
 var giLines = []string{"a", "b", "lib", "lib/", "*.txt", "*.json", "/a", "/d.txt", "a/b", "b/c", "c/d.txt", "# comment", "", "h", "node_modules/", "g.txt", "x y", "-z", "/lib/"}
 
